@@ -103,8 +103,10 @@ func selfValidate(c *Ctx, verifDir, repo string) selfResult {
 			}
 			vo := filepath.Join(dir, ".verif-out")
 			os.MkdirAll(vo, 0o755)
-			if kf, err := os.ReadFile(filepath.Join(verifDir, "known_findings.json")); err == nil {
-				os.WriteFile(filepath.Join(vo, "known_findings.json"), kf, 0o644)
+			for _, aux := range []string{"known_findings.json", "refsigs.json"} {
+				if kf, err := os.ReadFile(filepath.Join(verifDir, aux)); err == nil {
+					os.WriteFile(filepath.Join(vo, aux), kf, 0o644)
+				}
 			}
 			cmd := exec.Command(exe, "-repo", dir, "-verif", vo, "-property", e.Property, "-tier", "quick")
 			o, _ := cmd.CombinedOutput()
